@@ -233,6 +233,44 @@ def history_worker(part, depth):
     part.outcome(("history", depth))
 
 
+def near_duplicate_worker(part, base):
+    """
+    two cells whose parameters differ by less than any sensible rounding (angles by 1e-7 .. 5e-3 degrees, lengths by 1e-6
+    relative) built one after the other in one process, in either order and through either route: each object describes
+    exactly ITS parameters (anything shared between cells - tables keyed by rounded parameters - would show here)
+    """
+    import importlib
+    import chmpy.crystal.unit_cell as ucmod
+
+    a, b, c, al, be, ga = base
+    variants = []
+    for d in (2e-3, -4e-3, 4.9e-3, 1e-5, 1e-7):
+        variants.append((a, b, c, al + d, be, ga))
+        variants.append((a, b, c, al, be - d, ga + d))
+    variants.append((a * (1 + 1e-6), b, c * (1 - 1e-6), al, be, ga))
+    for var in variants:
+        for first, second in ((base, var), (var, base)):
+            for route in ("degrees", "radians-setter", "vectors"):
+                part.ev()
+                importlib.reload(ucmod)
+                objs = []
+                for p in (first, second):
+                    part.tr()
+                    if route == "degrees":
+                        uc = ucmod.UnitCell.from_lengths_and_angles(list(p[:3]), list(p[3:]), unit="degrees")
+                    elif route == "radians-setter":
+                        uc = ucmod.UnitCell(np.eye(3) * 3.0)
+                        uc.set_lengths_and_angles(list(p[:3]), list(np.radians(p[3:])))
+                    else:
+                        uc = ucmod.UnitCell(lattice.cell_matrix(*p))
+                    objs.append((uc, p))
+                    for (u, q) in objs:   # the new object AND the ones built before it
+                        check_cell(part, u, tuple(float(x) for x in q), "near-duplicate:%s:%s" % (route, "second" if u is not objs[0][0] else "first"),
+                                   {"kind": "neardup", "base": list(base)}, frame_free=(route == "vectors"))
+                part.outcome(("neardup", route, first is base))
+    part.nstates(len(variants) * 6)
+
+
 def run(ctx):
     from mc.core import chunked
 
@@ -256,12 +294,18 @@ def run(ctx):
     ctx.pmap(grid_worker, chunked(cells, max(1, len(cells) // 128)), unit_rad=True)
     ctx.pmap(named_worker, [0])
     ctx.pmap(history_worker, [3 if ctx.thorough else 2])
+    bases = [(7.0, 8.0, 9.0, 81.0, 97.0, 104.0), (5.1, 11.3, 13.7, 60.0, 65.0, 115.0), (7.0, 7.0, 7.0, 90.0, 90.0, 90.0), (6.0, 6.0, 11.0, 90.0, 90.0, 120.0),
+             (9.5, 9.5, 9.5, 98.432, 98.432, 98.432), (3.0, 40.0, 7.5, 90.0, 131.25, 90.0)]
+    ctx.pmap(near_duplicate_worker, bases)
+    ctx.bounds["near_duplicate_pairs"] = "%d base cells x 11 nearly equal partners (angles +-1e-7..5e-3 deg, lengths 1e-6) x both orders x 3 routes, module state reset per pair" % len(bases)
     ctx.bounds["respecification_histories"] = "all sequences of <= %d set_lengths_and_angles / set_vectors calls over 8 letters on one object" % (3 if ctx.thorough else 2)
     ctx.sample({"first_cells": [c[1] for c in cells[:3]], "n_cells": len(cells)})
 
 
 def replay(ctx, case):
-    if case.get("kind") == "history":
+    if case.get("kind") == "neardup":
+        near_duplicate_worker(ctx, tuple(case["base"]))
+    elif case.get("kind") == "history":
         history_worker(ctx, 3)
     elif case.get("kind") == "grid":
         grid_worker(ctx, [(0, tuple(case["params"]))], True)
